@@ -41,6 +41,8 @@ CHECK = {
       # destructors that allocate collector-managed temporaries and delete them again (1, 2 or 3 each)
       G('addr3-temps2', 'base', 'naddr=3', 'prop=C06', 'temps=2'), G('addr3-temps1-asan', 'asan', 'naddr=3', 'prop=C06', 'temps=1'),
       G('own3-temps2', 'base', 'mode=own', 'n=3', 'temps=2'), G('own3-temps3-asan', 'asan', 'mode=own', 'n=3', 'temps=3'), G('exit4-temps2', 'base', 'mode=exit', 'depth=4', 'temps=2'),
+      # destructors that raise and handle an exception of their own, wherever they are run from
+      G('exit4-dtortry', 'base', 'mode=exit', 'depth=4', 'dtortry=1'), G('addr3-dtortry', 'base', 'naddr=3', 'prop=C06', 'dtortry=1'), G('own3-dtortry-asan', 'asan', 'mode=own', 'n=3', 'dtortry=1'),
     ],
     'thorough': [
       # history suffix in the state key (lib/vf_bfs.h suffix=K): the last K operations keep histories apart that end in one visible state
@@ -54,7 +56,7 @@ CHECK = {
       G('own4-reuse', 'base', 'mode=own', 'n=4', 'reuse=1'), G('addr4-reuse', 'base', 'naddr=4', 'prop=C06', 'reuse=1'), G('addr4-B-reuse', 'base', 'naddr=4', 'prop=C06', 'reuse=1', 'residues=B'), G('own4-reuse-asan', 'asan', 'mode=own', 'n=4', 'reuse=1'),
       G('addr4-keep', 'base', 'naddr=4', 'prop=C06', 'keep=1'), G('addr4-B-keep', 'base', 'naddr=4', 'prop=C06', 'keep=1', 'residues=B'),
       G('addr4-temps2', 'base', 'naddr=4', 'prop=C06', 'temps=2'), G('addr4-temps1', 'base', 'naddr=4', 'prop=C06', 'temps=1'), G('addr3-temps3-asan', 'asan', 'naddr=3', 'prop=C06', 'temps=3'),
-      G('own4-temps2', 'base', 'mode=own', 'n=4', 'temps=2'), G('own3-temps3-asan', 'asan', 'mode=own', 'n=3', 'temps=3'), G('exit5-temps2', 'base', 'mode=exit', 'depth=5', 'temps=2'), G('exit5-temps1', 'base', 'mode=exit', 'depth=5', 'temps=1'),
+      G('own4-temps2', 'base', 'mode=own', 'n=4', 'temps=2'), G('own3-temps3-asan', 'asan', 'mode=own', 'n=3', 'temps=3'), G('exit5-temps2', 'base', 'mode=exit', 'depth=5', 'temps=2'), G('exit5-dtortry', 'base', 'mode=exit', 'depth=5', 'dtortry=1'), G('exit4-dtortry-asan', 'asan', 'mode=exit', 'depth=4', 'dtortry=1'), G('addr4-dtortry', 'base', 'naddr=4', 'prop=C06', 'dtortry=1'), G('own4-dtortry', 'base', 'mode=own', 'n=4', 'dtortry=1'), G('exit5-temps1', 'base', 'mode=exit', 'depth=5', 'temps=1'),
     ],
   },
 }
